@@ -84,9 +84,10 @@ def tick_counts(x, exact=False):
 
 
 class Tick:
-    __slots__ = ("op", "mem", "done", "first", "lit")
+    __slots__ = ("op", "mem", "done", "first", "lit", "cap")
 
-    def __init__(self, op, mem, done, first, lit=False):
+    def __init__(self, op, mem, done, first, lit=False, cap=None):
+        self.cap = cap      # only with mem None: the demand is not fixed by any property, but it cannot exceed this much
         self.lit = lit      # mem is an input literal (no float arithmetic behind it)
         self.op = op        # index of the operator occupying this tick
         self.mem = mem      # Fraction demand in this tick, or None = unconstrained
@@ -130,8 +131,10 @@ def build_timeline(ops, tps, counts):
                 mem = fr(fixed) if fixed is not None else read
                 ticks.append(Tick(oi, mem, False, False, True))
         if len(ticks) == start:
-            # an operator occupies at least one tick; memory in it is not constrained
-            ticks.append(Tick(oi, None, False, False))
+            # an operator occupies at least one tick; which of its segments' memory it shows there is not fixed by
+            # any property - but it is one of them: never more than the largest demand any of its segments states
+            cap = max([fr(s["mem"]) if s.get("mem") is not None else fr(s.get("read", 0)) for s in segs] or [Fr(0)])
+            ticks.append(Tick(oi, None, False, False, cap=cap))
         ticks[start].first = True
         ticks[-1].done = True
     return ticks
@@ -166,6 +169,14 @@ def cmp_over(mem, limit, lit=False):
     if near(mem, limit):
         return "either"
     return "over" if mem > limit else "under"
+
+
+def tick_over(t, limit):
+    """cmp_over for a timeline tick; a tick whose demand is only bounded (forced tick of a zero-tick operator) cannot
+    exceed a limit its bound does not exceed"""
+    if t.mem is None and t.cap is not None:
+        return "under" if cmp_over(t.cap, limit, False) == "under" else "either"
+    return cmp_over(t.mem, limit, t.lit)
 
 
 def suspend_ticks(ram, tps):
@@ -209,6 +220,7 @@ class RC:
         self.left = None      # remaining write-out ticks
         self.boundary = False
         self.mem = Fr(0)      # demand in the last executed tick (None = unconstrained)
+        self.mem_cap = None   # with an unconstrained demand: the bound it still has to respect
         self.done_now = False
         self.over_now = False
 
@@ -342,7 +354,7 @@ class RefExecutor:
                 for rc2 in q.live:
                     if rc2.status == "run" and rc2.pos < len(rc2.tl):
                         t2 = rc2.tl[rc2.pos]
-                        if t2.done and cmp_over(t2.mem, rc2.ram, t2.lit) == "under":
+                        if t2.done and tick_over(t2, rc2.ram) == "under":
                             completing_now.add(rc2.ops[t2.op])
             for rc in running:
                 rc.boundary = False
@@ -366,11 +378,12 @@ class RefExecutor:
                     assert self.opstate[op] == A, self.opstate[op]
                     self.opstate[op] = R
                 rc.mem = t.mem
-                c = cmp_over(t.mem, rc.ram, t.lit)
+                c = tick_over(t, rc.ram)
+                rc.mem_cap = t.cap if t.mem is None else None
                 if c == "either":
                     c = "over" if rc.key in observed_failed else "under"
-                    if t.mem is None and observed_mem is not None:
-                        rc.mem = observed_mem.get(rc.key, Fr(0))
+                if t.mem is None and observed_mem is not None:
+                    rc.mem = observed_mem.get(rc.key, Fr(0))
                 if c == "over":
                     rc.over_now = True
                     continue  # frozen until killed (in this same tick)
